@@ -36,6 +36,32 @@ let show_nres (r, n) =
   | NFault IntOverflow -> Printf.sprintf "%d FAULT:IntOverflow" n
   | Val q -> if n = 0 then "0 -" else Printf.sprintf "%d %s" n (string_of_q q)
 
+let n_of_int (i : int) : n = if i = 0 then N0 else Npos (pos_of_z (BZ.of_int i))
+let sense_of s = match s with "L" -> SL | "G" -> SG | "E" -> SE | "R" -> SR | _ -> failwith "bad sense"
+
+(* NLP <max> <ncols> <nrows> ; NC <nameid> <obj> <lo> <up> <int> ; NR <nameid> <sense> <rhs> <range> <k> (<nameid> <coef>)* *)
+let read_nlp ic : nlp =
+  match next_tokens ic with
+  | Some [ "NLP"; mx; nc; nr ] ->
+    let nc = int_of_string nc and nr = int_of_string nr in
+    let cols = List.init nc (fun _ -> match next_tokens ic with
+      | Some [ "NC"; nm; o; l; u; it ] ->
+        { nc_name = n_of_int (int_of_string nm); nc_obj = q_of_string o; nc_lo = q_of_string l; nc_up = q_of_string u; nc_int = (it = "1") }
+      | _ -> failwith "NC line expected") in
+    let rows = List.init nr (fun _ -> match next_tokens ic with
+      | Some ("NR" :: nm :: s :: rhs :: rg :: _k :: rest) ->
+        let rec ents = function
+          | i :: v :: r -> (n_of_int (int_of_string i), q_of_string v) :: ents r
+          | [] -> [] | _ -> failwith "bad NR line" in
+        { nr_name = n_of_int (int_of_string nm); nr_sense = sense_of s; nr_rhs = q_of_string rhs; nr_range = q_of_string rg; nr_ent = ents rest }
+      | _ -> failwith "NR line expected") in
+    { n_max = (mx = "1"); n_cols = cols; n_rows = rows }
+  | _ -> failwith "NLP header expected"
+
+let show_bstmt b = match b with
+  | BFix v -> "FIX " ^ string_of_q v | BFreeS -> "FREE" | BLo v -> "LO " ^ string_of_q v
+  | BUp v -> "UP " ^ string_of_q v | BLoUp (l, u) -> "LOUP " ^ string_of_q l ^ " " ^ string_of_q u
+
 let () =
   let ic = stdin in
   let rec loop () =
@@ -52,6 +78,17 @@ let () =
             | Val q -> Printf.printf "A %s %d %s\n" id (int_of_nat n) (string_of_q q)
             | _ -> Printf.printf "A %s %s\n" id (show_nres (r, n)))
          | "print", [ q ] -> Printf.printf "A %s %s\n" id (enc (string_of_chars (print_num (q_of_string q))))
+         | "equiv", [] ->
+           let p = read_nlp ic in let p' = read_nlp ic in
+           Printf.printf "A %s %s\n" id (string_of_bool (equiv_by_name p p'))
+         | "emptyrows", [] ->
+           let p = read_nlp ic in
+           Printf.printf "A %s %s\n" id (String.concat "" (List.map (fun r -> if row_empty r then "1" else "0") p.n_rows))
+         | "bounds", [ lo; up; it ] ->
+           let lo = q_of_string lo and up = q_of_string up and it = (it = "1") in
+           let e = encode_bounds !sentinel lo up it in
+           let (l', u') = decode_bounds !sentinel e it in
+           Printf.printf "A %s %s | %s %s\n" id (if e = [] then "NONE" else String.concat " ; " (List.map show_bstmt e)) (string_of_q l') (string_of_q u')
          | _ -> Printf.printf "A %s UNKNOWN-QUERY\n" id)
       with Failure m -> Printf.printf "A %s PARSE-ERROR %s\n" id m);
       flush stdout; loop ()
